@@ -526,8 +526,34 @@ func (s *Sim) accessRefused(c *Client, rid string, r *CReq) bool {
 
 // checkConvergence is C01.
 func (s *Sim) checkConvergence(c *Client) {
+	// what the gateway, too, knows the client to hold: reachable from the direct
+	// subscriptions without passing through a resource for which the client was
+	// sent an error entry while it held data (the gateway follows no references
+	// of a resource that failed to load; the client, keeping the data, does)
+	firm := map[string]bool{}
+	var visit func(rid string)
+	visit = func(rid string) {
+		if firm[rid] {
+			return
+		}
+		firm[rid] = true
+		if r := c.Cache[rid]; r != nil && !r.Ambiguous {
+			for _, x := range refsOf(r) {
+				visit(x)
+			}
+		}
+	}
+	for _, rid := range sortedKeys(c.Direct) {
+		if c.Direct[rid] > 0 {
+			visit(rid)
+		}
+	}
 	for _, rid := range c.held() {
 		h := c.Cache[rid]
+		if !firm[rid] && h.Kind != 'e' {
+			s.stat("exempt.held_through_error_entry_only", 1)
+			continue
+		}
 		res, v := s.W.lookup(c.expandCID(rid))
 		if h.Kind == 'e' {
 			s.stat("oracle.C01.b", 1)
